@@ -126,7 +126,8 @@ class Roe(Spec):
                 "MemoryEffectKind.READ": VInt(z3.IntVal(READ)), "MemoryEffectKind.ALLOC": VInt(z3.IntVal(ALLOC))}
 
     calls = {
-        "rootOp.is_ancestor": Builtin(lambda ex, st, a, k: [__import__("pyvc.engine", fromlist=["Res"]).Res("val", VBool(ANC(st.env["rootOp"].z, a[0].z)), st)], "pure is_ancestor"),
+        # any receiver: `x.is_ancestor(y)` is ANC(x, y), so that exchanging receiver and argument is refuted and not merely out of the subset
+        ".is_ancestor": Builtin(lambda ex, st, a, k: [__import__("pyvc.engine", fromlist=["Res"]).Res("val", VBool(ANC(a[0].z, a[1].z)), st)], "pure is_ancestor"),
     }
 
     def pre(self, st, a):
